@@ -322,3 +322,29 @@ Theorem C13_gauss_legendre_malformed_exits {T} (Ops : NumOps T) (fv : list T) (r
   (List.length fv <> List.length rows \/ Exists (fun row => List.length row <> 2%nat) rows) -> gl_sum_rows Ops fv rows = Exit.
 Proof. exact (gl_sum_rows_exits Ops fv rows). Qed.
 Print Assumptions C13_gauss_legendre_malformed_exits.
+
+(** ** Nesting to any depth (a user's integrand that calls Integrate_2D/Integrate_3D itself: 3D in 3D in 3D = nine levels of Integrate active at once).
+    Clause: "Integrate_2D/Integrate_3D of a separable integrand equal the product of the one-dimensional integrals, each argument of the integrand
+    receives the variable of its own pair of limits" - at whatever depth the call is made.  Any number type (in particular the doubles), any
+    one-dimensional integrator J, any number of levels. *)
+From LP Require Import C13_Proofs_Depth.
+
+(** the general stack of levels, cut at two and three limit pairs, is the nesting of Integrate_2D and Integrate_3D *)
+Theorem C13_stack_of_levels_is_front_end_nesting {T} (J : (T -> res T) -> T -> T -> res T) (d : T) (f2 : T -> T -> T) (f3 : T -> T -> T -> T) x1 x2 y1 y2 z1 z2 :
+  nest_nd J [(x1, x2); (y1, y2)] (fun pt => Ok (f2 (nth 0 pt d) (nth 1 pt d))) [] = nest_2d J f2 x1 x2 y1 y2 /\
+  nest_nd J [(x1, x2); (y1, y2); (z1, z2)] (fun pt => Ok (f3 (nth 0 pt d) (nth 1 pt d) (nth 2 pt d))) [] = nest_3d J f3 x1 x2 y1 y2 z1 z2.
+Proof. exact (conj (nest_nd_is_nest_2d J d f2 x1 x2 y1 y2) (nest_nd_is_nest_3d J d f3 x1 x2 y1 y2 z1 z2)). Qed.
+Print Assumptions C13_stack_of_levels_is_front_end_nesting.
+
+(** depth composes: the levels of a stack entered from the innermost integrand of another stack are the next levels of one stack *)
+Theorem C13_nesting_depth_composes {T} (J : (T -> res T) -> T -> T -> res T) (l1 l2 : list (T * T)) (f : list T -> res T) (pt : list T) :
+  nest_nd J (l1 ++ l2) f pt = nest_nd J l1 (fun q => nest_nd J l2 f q) pt.
+Proof. exact (nest_nd_app J l1 l2 f pt). Qed.
+Print Assumptions C13_nesting_depth_composes.
+
+(** a stack whose integrand reads the variables of its own levels only (a normalisation constant) has the value it has when it is entered from
+    the top level, at whatever point pt0 of an enclosing stack of whatever depth it is entered *)
+Theorem C13_inner_stack_independent_of_depth {T} (J : (T -> res T) -> T -> T -> res T) (pt0 : list T) (l2 : list (T * T)) (g : list T -> res T) :
+  nest_nd J l2 (fun q => g (skipn (List.length pt0) q)) pt0 = nest_nd J l2 g [].
+Proof. exact (nest_nd_independent_of_depth J pt0 l2 g). Qed.
+Print Assumptions C13_inner_stack_independent_of_depth.
